@@ -1,9 +1,10 @@
 #!/venv/bin/python
 """usage: register_survey.py <survey log>...  -- (re)builds the survey-derived known findings of C18..C23.
 
-Lines: "<prop> seed<n> <bucket> ||| <message>".  Rule: per (kind, function, real|cplx) -- if the observed failures
-span two or more (precision band, argument class) combinations the finding covers `kind:function:type:`; a single
-combination is registered as that exact bucket, so that a different failure of the same function is still reported."""
+Lines: "<prop> seed<n> <bucket> ||| <message>".  Rule: per function -- if the observed failures span two or more
+(kind, argument type, precision band, argument class) combinations the function is covered by `acc:function:` and
+`gross:function:`; a function with a single failing combination is registered as that exact bucket, so that a different
+failure of the same function is still reported."""
 import json, re, collections, sys
 d = json.load(open('/verif/known_findings.json'))
 d['findings'] = [x for x in d['findings'] if not x.get('survey')]
@@ -31,22 +32,36 @@ for (prop, bucket), msgs in sorted(exc.items()):
                           'status': 'known', 'bucket_prefix': bucket, 'scope': 'bucket', 'survey': True,
                           'what': "undocumented exception escaping from a special function: " + msgs[0][:200]})
     new += 1
-for (prop, kind, name, ty), classes in sorted(by.items()):
-    n = sum(len(v) for v in classes.values())
-    first = sorted(classes.items())[0][1][0]
-    desc = ("%s (%s arguments): result has (almost) no correct bits" if kind == 'gross' else
-            "%s (%s arguments) misses the 2^(8-p) relative accuracy bound") % (name, 'complex' if ty == 'cplx' else 'real')
+# per function: all failing buckets over kinds / argument types / classes
+perfn = collections.defaultdict(set)
+for (prop, kind, name, ty), classes in by.items():
+    for cls in classes:
+        perfn[(prop, name)].add((kind, ty, cls))
+for (prop, name), combos in sorted(perfn.items()):
+    msgs = []
+    for (kind, ty, cls) in sorted(combos):
+        msgs += by[(prop, kind, name, ty)][cls]
+    n = len(msgs)
     e = {'property': prop, 'status': 'known', 'scope': 'bucket', 'survey': True}
-    if len(classes) >= 2:
-        e['id'] = '%s-%s-%s-%s' % (prop, kind, name, ty)
-        e['bucket_prefix'] = '%s:%s:%s:' % (kind, name, ty)
-        e['what'] = "%s in several argument classes (%s; multi-seed survey, %d cases); e.g. %s" % (desc, ', '.join(sorted(classes)), n, first[:240])
+    if len(combos) >= 2:
+        for kind in sorted(set(k for k, _, _ in combos) | {'acc', 'gross'}):
+            e2 = dict(e)
+            e2['id'] = '%s-%s-%s' % (prop, kind, name)
+            e2['bucket_prefix'] = '%s:%s:' % (kind, name)
+            e2['what'] = ("%s misses the 2^(8-p) relative accuracy bound in several argument classes / types (%s; multi-seed survey, %d "
+                          "cases; '%s' = %s); e.g. %s" % (name, ', '.join(sorted('%s:%s:%s' % c for c in combos))[:300], n, kind,
+                                                          'result has (almost) no correct bits' if kind == 'gross' else 'error of a few to many ulp',
+                                                          msgs[0][:220]))
+            d['findings'].append(e2)
+            new += 1
     else:
-        cls = list(classes)[0]
+        kind, ty, cls = list(combos)[0]
         e['id'] = '%s-%s-%s-%s-%s' % (prop, kind, name, ty, cls.replace(':', '-'))
         e['bucket'] = '%s:%s:%s:%s' % (kind, name, ty, cls)
-        e['what'] = "%s in argument class %s (multi-seed survey, %d case(s)); e.g. %s" % (desc, cls, n, first[:240])
-    d['findings'].append(e)
-    new += 1
+        e['what'] = "%s (%s arguments, class %s): %s (multi-seed survey, %d case(s)); e.g. %s" % (
+            name, 'complex' if ty == 'cplx' else 'real', cls,
+            'result has (almost) no correct bits' if kind == 'gross' else 'misses the 2^(8-p) relative accuracy bound', n, msgs[0][:240])
+        d['findings'].append(e)
+        new += 1
 json.dump(d, open('/verif/known_findings.json', 'w'), indent=1)
 print(new, "survey entries")
